@@ -382,8 +382,10 @@ outer:
 
 		utfb := make([]byte, len(b)*4) // worst case
 		for l := 1; l <= len(b); l++ {
+			s.Lock()
 			s.decoder.Reset()
 			nout, nin, _ := s.decoder.Transform(utfb, b[:l], false)
+			s.Unlock()
 
 			if nout != 0 {
 				r, _ := utf8.DecodeRune(utfb[:nout])
